@@ -495,6 +495,12 @@ class FullTie(object):
             if 'loaderr' in rep:
                 ctx.disagree('corr:c02.full', cases[0][2], 'scheme loaded', rep)
                 continue
+            # hypotheses of the composition theorems, observed on every scheme sent: queries well-formed, no `*` suffix,
+            # no molecule-level prefix (the last one is what C04_decompose_union needs; a table observation for the shipped schemes)
+            for flag in ('schemewf', 'nostar', 'nomolprefix'):
+                ctx.count('scheme_%s_%s' % (flag, 'yes' if rep.get(flag) else 'NO'))
+            if not rep.get('schemewf'):
+                raise common.MachineryError('the model reader returned an ill-formed query for a scheme pattern (contradicts C02_load_wf)')
             table = {str(k): str(v[0][1]) for k, v in s.remaps.items() if v}
             for (g, impl, where, atoms, hook), r in zip(cases, rep['res']):
                 ctx.count('corr_c02.full')
